@@ -433,6 +433,34 @@ def run(ctx):
                                     % s["ty"].get("s")), "%s:%s" % (s["loc"].get("f"), s["loc"].get("l")))
     ctx.floor("C15.U3 mutable statics / thread-locals", n3, 12)
 
+    # ---- U10 (after seed C15-7): a state's id tells the objects of one render from those of every other render -
+    # a macro refuses to run against a state that is not its own by comparing ids.  That works "from any number of
+    # threads at once" only while ids are unique in the process: every value stored in `State.id` is the result of an
+    # atomic read-modify-write (`fetch_add`) on a static that is not thread-local.
+    n10 = 0
+    for f10, bb10, i10, rv10 in query.aggregates_of(prog, "minijinja::vm::state::State"):
+        if "id" not in (rv10.get("fields") or []):
+            continue
+        for o in flow.origins(f10, rv10["ops"][rv10["fields"].index("id")]):
+            n10 += 1
+            ok10 = False
+            why10 = "the id is not the result of an atomic fetch_add (%s)" % (o.call.name if o.kind == "call" else o.kind)
+            if o.kind == "call" and "sync::atomic::Atomic" in o.call.name and o.call.name.endswith("::fetch_add") and o.call.args:
+                recv = flow.origins(f10, o.call.args[0])
+                ok10 = bool(recv) and all(r.kind == "const" for r in recv)
+                why10 = "the counter is not a process-wide static"
+                # the only atomics of the engine that are statics: none of them may be thread-local
+                for s_ in prog.statics:
+                    if "sync::atomic::Atomic" in (s_["ty"].get("s") or "") and s_.get("thread_local") and s_.get("crate") == "minijinja":
+                        ok10 = False
+                        why10 = "the atomic counter %s is thread-local" % norm_path(s_["path"])
+            ctx.ob("C15.U10.state-ids-are-unique-in-the-process", "%s|id" % f10.path.split("::")[-1], ok10,
+                   "State.id: %s - two renders on different threads can get the same id, and a macro value that outlived "
+                   "its render is then accepted by (and run against) a foreign state: the same template and context "
+                   "give an error or a result depending on how many renders a thread did before" % why10, f10.where(bb10))
+    if any(f_.path == "minijinja::vm::state::State::new" for f_ in prog.fns.values()) and prog.adt("minijinja::vm::state::State") and \
+            any(fl.get("name") == "id" for v_ in prog.adt("minijinja::vm::state::State").get("variants", []) for fl in v_.get("fields", [])):
+        ctx.floor("C15.U10 values stored as a state's id", n10, 1)
     # ---- U9
     check_registrations_take_effect(ctx, prog)
     # ---- U4
